@@ -9,6 +9,7 @@ DESIGN.md section 3, C09.
 """
 import copy
 import decimal
+import math
 from fractions import Fraction
 
 import lena.core
@@ -16,7 +17,7 @@ import lena.flow
 import lena.math
 import lena.structures
 
-from ..kernel import RunResult, summarize, exception_origin, exception_site
+from ..kernel import RunResult, summarize, exception_origin, exception_site, StepBudget, StepBudgetExceeded
 
 PROPERTY = "C09"
 LEVEL = "exploration"
@@ -123,7 +124,8 @@ def draw_context(tape, serial, keyed=False, scale=False):
     if kind == "empty":
         return kind, {}
     # (a key whose value is None is not a missing key)
-    ctx = {"k": [0, 1, 2, None][tape.draw(4, "k")], "nest": {"i": serial, "l": [serial]}}
+    # (1, 1.0 and True are equal, and are three different keys)
+    ctx = {"k": [0, 1, 2, None, 1.0, True][tape.draw(6, "k")], "nest": {"i": serial, "l": [serial]}}
     # equal sub-dictionaries built in different insertion orders
     if serial % 2:
         ctx["unit"] = {"name": "x", "u": "cm"}
@@ -679,8 +681,8 @@ class KGroupBy(Kind):
         return None
 
 
-EDGES1 = [[0, 1, 2, 4], [0.0, 0.5, 1.0], [-2, 0, 5]]
-EDGES2 = [[[0, 1, 2], [0, 2, 4]], [[0, 2], [0, 1, 2, 3]]]
+EDGES1 = [[0, 1, 2, 4], [0.0, 0.5, 1.0], [-2, 0, 5], [-1, 0, 1]]
+EDGES2 = [[[0, 1, 2], [0, 2, 4]], [[0, 2], [0, 1, 2, 3]], [[-1, 0, 1], [0, 1, 2, 3]]]
 
 
 def cell_of(edges, x):
@@ -697,7 +699,7 @@ class KHistogram(Kind):
 
     def draw_cfg(self, tape):
         dim = 1 + (tape.draw(3, "dim2") == 2)
-        edges = tape.draw(3, "edges") if dim == 1 else tape.draw(2, "edges")
+        edges = tape.draw(4, "edges") if dim == 1 else tape.draw(3, "edges")
         return {"dim": dim, "edges": edges,
                 "bins": tape.choice(["none", "initial", "make_bins"], "bins"),
                 "init": tape.choice([0, 0, 2], "initial_value")}
@@ -721,7 +723,10 @@ class KHistogram(Kind):
                                          initial_value=cfg["init"])
 
     def draw_data(self, tape, cfg, serial):
-        pool = [0, 0.5, 1, 1.5, 2, 3.5, 4, -1, 7, 0.25, 2.5]
+        pool = [0, 0.5, 1, 1.5, 2, 3.5, 4, -1, 7, 0.25, 2.5,
+                # the largest floats below an edge
+                math.nextafter(1.0, -math.inf), math.nextafter(2.0, -math.inf),
+                math.nextafter(4.0, -math.inf), math.nextafter(5.0, -math.inf), math.nextafter(0.0, -math.inf)]
         if cfg["dim"] == 1:
             return tape.choice(pool, "x")
         return (tape.choice(pool, "x"), tape.choice(pool, "y"))
@@ -976,7 +981,16 @@ def run(tape):
             if isinstance(data, float) and abs(data) >= 1e200:
                 res.fault("cancelling-huge-floats")
             try:
-                el.fill(val)
+                if kind.name == "Histogram":
+                    # a fill is a search in the edges: it must come back
+                    with StepBudget(20000):
+                        el.fill(val)
+                else:
+                    el.fill(val)
+            except StepBudgetExceeded:
+                res.viol("C09:Histogram:fill:hang", "fill(%r) did not return within 20000 lines (edges %r)"
+                         % (data, kind.edges(cfg)))
+                return res
             except Exception as e:  # noqa: BLE001
                 unexpected("fill", e)
                 return res
